@@ -181,6 +181,7 @@ func main() {
 	n := flag.Int("n", 1000, "number of cases")
 	casesPath := flag.String("cases", "cases.txt", "output: request lines")
 	implPath := flag.String("impl", "impl.txt", "output: answers of the real Go library")
+	flag.BoolVar(&allowBug800, "bug800", false, "also generate decimal float literals with more than 800 integer digits (go1.23.5 answers them wrongly; expect differences)")
 	flag.Parse()
 
 	g := &gen{r: rand.New(rand.NewSource(*seed))}
